@@ -4,10 +4,14 @@ Property theorems only (lemmas in Proofs/Draws.lean, Proofs/DrawsWichura.lean). 
 statements are about the `ℝ` instance of the definitions of Model/Draws.lean — the same
 definitions the driver runs on `Float`; the catalogue `Generated.drawCatalogue` is rewritten
 from the source of `native_draws.py` on every run.
+Round 3: histories within one process (Model/DrawsSession.lean, lemmas in Proofs/DrawsSession.lean) —
+lists of generator calls (catalogue entries, `draws.py` generators with every option) mixed with
+in-place operations of the caller on arrays it received; the registry of user-defined generators.
 -/
 import Model.Draws
 import Proofs.Draws
 import Proofs.DrawsWichura
+import Proofs.DrawsSession
 import Generated.DrawCatalogue
 
 open Draws
@@ -284,7 +288,126 @@ theorem distinct_bases_distinct_sequences (b1 b2 s1 s2 len : ℕ) (h1 : 2 ≤ b1
   simp only [Nat.zero_add] at h0
   exact radInv_ne_of_q b1 b2 s1 s2 h1 h2 hq h0
 
+/-! ### sessions: histories of calls within one process (Model/DrawsSession.lean)
+
+The generators keep no state and hand over arrays that belong to the caller.  A session is any
+list of generator calls (catalogue entries and the generators of `draws.py` with every option,
+`shuffled=True` included) mixed with in-place operations of the caller on arrays it received. -/
+
+/-- **Every call of every history returns the stateless function of the call** — whatever was
+called before (shuffled or not, same base or not) and whatever the caller did to earlier arrays. -/
+theorem session_every_call_is_stateless {α : Type} [NumOps α] (ops : List (Op α)) :
+    (run ops).returned = (callsOf ops).map callResult := by
+  simpa [run] using runFrom_returned ops (⟨[], []⟩ : Sess α)
+
+/-- the same, for one call after an arbitrary history -/
+theorem session_call_after_any_history {α : Type} [NumOps α] (h : List (Op α)) (c : Call α) :
+    (run (h ++ [Op.call c])).returned[(callsOf h).length]? = some (callResult c) := by
+  rw [session_every_call_is_stateless, callsOf_append]
+  simp [callsOf]
+
+/-- **A caller's in-place operation changes the array it names and nothing else**: no other array
+held by the caller, and nothing of what the calls returned. -/
+theorem session_caller_writes_only_its_array {α : Type} [NumOps α] (h : List (Op α)) (op : Op α)
+    (k j : ℕ) (hk : op.target = some k) (hj : j ≠ k) :
+    (run (h ++ [op])).held[j]? = (run h).held[j]? ∧ (run (h ++ [op])).returned = (run h).returned := by
+  have : run (h ++ [op]) = step (run h) op := by simp [run, runFrom]
+  rw [this]
+  exact step_frame (run h) op k j hk hj
+
+/-- an array that no operation of the history names still holds what its call returned -/
+theorem session_untouched_array_keeps_value {α : Type} [NumOps α] (ops : List (Op α)) (j : ℕ)
+    (h : ∀ op ∈ ops, op.target ≠ some j) : (run ops).held[j]? = (run ops).returned[j]? :=
+  runFrom_untouched j ops ⟨[], []⟩ h rfl rfl
+
+/-- **A Halton catalogue entry called after ANY history returns the radical-inverse sequence of
+its base after its skip** (rows of `R` numbers): an earlier shuffled call of the same base, or a
+caller scribbling over an array of the same base, changes nothing. -/
+theorem halton_entry_after_any_history (h : List (Op ℝ)) (b skip n R : ℕ) (hb : 2 ≤ b)
+    (hn : 0 < n) (hR : 0 < R) (us : List ℝ) (perm : List ℕ) :
+    (run (h ++ [Op.call (.cat ⟨.halton b skip, false, false, false⟩ n R us perm)])).returned[(callsOf h).length]?
+      = some (.ok (chunk R n ((List.range (n * R)).map fun k => (radInv b (k + skip + 1) : ℝ)))) := by
+  rw [session_call_after_any_history, callResult_halton_entry b skip n R hb hn hR]
+
+/-- the direct call `get_halton_draws(n, R, base=b, skip=s)` after any history -/
+theorem halton_call_after_any_history (h : List (Op ℝ)) (b skip n R : ℕ) (hb : 2 ≤ b)
+    (hn : 0 < n) (hR : 0 < R) (perm : List ℕ) :
+    (run (h ++ [Op.call (.halton b skip n R false false perm)])).returned[(callsOf h).length]?
+      = some (.ok (chunk R n ((List.range (R * n)).map fun k => (radInv b (k + skip + 1) : ℝ)))) := by
+  rw [session_call_after_any_history]
+  exact congrArg some (haltonCall_spec b skip n R hb hn hR perm)
+
+/-- **`shuffled=True`** delivers a permutation of the radical-inverse sequence (the flat array is
+shuffled as a whole), and `shuffled=False` is the plain generator. -/
+theorem halton_shuffled_is_permutation (b skip len : ℕ) (hb : 2 ≤ b) (perm : List ℕ)
+    (hp : perm.Perm (List.range len)) :
+    (haltonDrawsSh b skip len false true perm : List ℝ).Perm
+      ((List.range len).map fun k => (radInv b (k + skip + 1) : ℝ)) ∧
+    ∀ sym, (haltonDrawsSh b skip len sym false perm : List ℝ) = haltonDraws b skip len sym :=
+  ⟨haltonDrawsSh_perm b skip len hb perm hp, fun sym => haltonDrawsSh_unshuffled b skip len sym perm⟩
+
+/-- the refused requests of the direct generators, in the order of the code -/
+theorem direct_calls_refuse {α : Type} [NumOps α] (n R : ℕ) (us : List α) (perm : List ℕ) :
+    (haltonCall 2 0 n 0 false false perm : Arr α) = .error (.gen .badDraws) ∧
+    (0 < R → (haltonCall 2 0 0 R false false perm : Arr α) = .error (.gen .badSample)) ∧
+    (R % 2 = 1 → (wichuraCall n R true us : Arr α) = .error (.gen .oddDraws)) ∧
+    (0 < n → 0 < R → us.length ≠ R * n → (lhsCall n R false us perm : Arr α) = .error .uniformCount) ∧
+    (0 < n → 0 < R → us.length ≠ R * n → (wichuraCall n R false us : Arr α) = .error .uniformCount) := by
+  refine ⟨by simp [haltonCall], ?_, ?_, ?_, ?_⟩
+  · intro hR
+    have : (R == 0) = false := by simp; omega
+    simp [haltonCall, this]
+  · intro hR
+    have h0 : (R == 0) = false := by simp; omega
+    simp [wichuraCall, h0, hR]
+  · intro hn hR hu
+    have h0 : (R == 0) = false := by simp; omega
+    have h1 : (n == 0) = false := by simp; omega
+    simp [lhsCall, h0, h1, hu]
+  · intro hn hR hu
+    have h0 : (R == 0) = false := by simp; omega
+    have h1 : (n == 0) = false := by simp; omega
+    simp [wichuraCall, h0, h1, hu]
+
+/-! ### the registry of user-defined generators (`set_random_number_generators`) and name resolution -/
+
+/-- **A catalogue name always means the catalogue entry**: after any history of registrations
+(accepted or refused, in any order) a name of the catalogue resolves to its catalogued generator,
+and the registry holds no catalogue name at all. -/
+theorem catalogue_name_never_hijacked (cat : List CatEntry) (sets : List (List String)) (name : String)
+    (e : CatEntry) (h : cat.find? (fun e => e.name == name) = some e) :
+    resolve cat (registryAfter cat sets) name = .native e.gen ∧
+    reservedIn cat (registryAfter cat sets) = false :=
+  ⟨resolve_native cat _ name e h, registry_no_catalogue_name cat sets⟩
+
+/-- a table with a catalogue name among its keys is refused and leaves the registry as it is; any
+other table replaces the registry -/
+theorem registration_replaces_or_refuses (cat : List CatEntry) (sets : List (List String)) (keys : List String) :
+    registryAfter cat (sets ++ [keys]) = if reservedIn cat keys then registryAfter cat sets else keys :=
+  registry_step cat sets keys
+
+/-- a name that is neither catalogued nor registered is refused (`BiogemeError`), a registered one
+is served by the user's generator -/
+theorem resolve_unknown_or_user (cat : List CatEntry) (reg : List String) (name : String)
+    (h : cat.find? (fun e => e.name == name) = none) :
+    resolve cat reg name = if reg.contains name then .user name else .unknownType := by
+  simp [resolve, h]
+
 /-! ### non-vacuity -/
+
+-- a history with a shuffled call, a caller's in-place operation, and a later call of the same base
+example : (callsOf ([.call (.halton 3 10 2 15 false true [1, 0]), .scale 0 100,
+      .call (.cat ⟨.halton 3 10, false, false, false⟩ 3 4 [] [])] : List (Op ℝ))).length = 2 := by
+  simp [callsOf]
+
+example : (Op.scale 0 (100 : ℝ)).target = some 0 ∧ (1 : ℕ) ≠ 0 := ⟨rfl, by decide⟩
+
+example : ∀ op ∈ ([.call (.halton 2 0 1 2 false false []), .fill 0 7] : List (Op ℝ)), op.target ≠ some 1 := by
+  intro op hop
+  simp only [List.mem_cons, List.not_mem_nil, or_false] at hop
+  rcases hop with rfl | rfl <;> simp [Op.target]
+
+example : ([1, 2, 0] : List ℕ).Perm (List.range 3) := by decide
 
 example : (radInvQ 2 13 11, radInvQ 3 13 11, radInvQ 5 13 11) = ((13, 16), (19, 27), (7, 25)) := by decide
 
@@ -319,5 +442,10 @@ example : (generateDraws 2 3 [⟨[2, 3], [1, 2, 3, 4, 5, 6]⟩, ⟨[3, 2], [1, 2
   simp [generateDraws, firstRefused, dimsAccepted]
 
 example : Generated.drawCatalogue.length = 21 := by decide
+
+example : (Generated.drawCatalogue.find? (fun e => e.name == "UNIFORM_HALTON3")).isSome = true := by decide
+
+example : registryAfter Generated.drawCatalogue [["MYGEN"], ["UNIFORM_HALTON3", "LOGN"], ["EXPDRAWS"]] = ["EXPDRAWS"]
+    ∧ registryAfter Generated.drawCatalogue [["MYGEN"], ["UNIFORM_HALTON3", "LOGN"]] = ["MYGEN"] := by decide
 
 end C11
